@@ -124,8 +124,9 @@ def check_eq_sym(prog: Program, res: Result) -> None:
         if not (isinstance(labels, ast.Tuple) and len(labels.elts) == 2):
             problems.append("atom_labels is not a pair")
         else:
-            x = norm(resolve(labels.elts[0], fi.node), 600)
-            y = norm(resolve(labels.elts[1], fi.node), 600)
+            from .core import alpha_norm
+            x = alpha_norm(resolve(labels.elts[0], fi.node), 600)
+            y = alpha_norm(resolve(labels.elts[1], fi.node), 600)
             swapped = re.sub(rf"\b{s}\b", "\0", x)
             swapped = re.sub(rf"\b{o}\b", s, swapped).replace("\0", o)
             if swapped != y:
